@@ -94,9 +94,18 @@ SWITCH_HEADERS = {"message_SwitchMenu", "message_SwitchMenu2", "ProcessSpecial",
 
 
 def first_kind(rs: dict, stage: str) -> str:
-    """the kind names the input class only; the failing stage goes into the description"""
-    sh = shapes(rs)
-    return f"decompiled_wrong:{sh[0]}" if sh else f"{stage}:unclassified"
+    """the kind names a narrow input class (only used to match known findings); the failing stage goes into the description.
+    After the repairs of build round 2 (see known_findings.jsonl, status fixed) the decompiler is wrong on two classes only;
+    every other failing input is unclassified and therefore a VIOLATION."""
+    sh = set(shapes(rs))
+    cyclic = sh & {"backward_jump", "complex_loop", "empty_body_loop"}
+    if "has_call_op" in sh and cyclic:
+        return "decompiled_wrong:call_in_cyclic_flow"
+    if "routine_starts_with_jump" in sh and "complex_loop" in sh:
+        return "decompiled_wrong:starts_with_jump_into_complex_loop"
+    if "has_call_op" in sh and "cross_routine_jump" in sh and "switch_fallthrough" in sh:
+        return "decompiled_wrong:call_cross_routine_and_switch_fallthrough"
+    return f"{stage}:unclassified"
 
 
 def cfgs_for(tier: str) -> list[Cfg]:
@@ -210,7 +219,7 @@ def run(run: core.Run) -> int:
             if kind.endswith(":unclassified") and sum(1 for v in run.violations) < 3:
                 # shrink the routine set while an unclassified failure of the same stage persists
                 def still(t: dict) -> bool:
-                    if shapes(t):
+                    if not first_kind(t, stage).endswith(":unclassified"):
                         return False
                     rr = dc.pipeline_all(pool, [{"rs": t}], single_timeout=20)
                     ff, _ = evaluate([{"rs": t}], rr, drv, 1)
